@@ -165,8 +165,11 @@ SEQUENCE_OF_encode_uper(const asn_TYPE_descriptor_t *td,
 
     /* If extensible constraint, check if size is in root */
     if(ct) {
+        /* SIZE(lb..MAX): no upper bound, upper_bound is not meaningful */
         int not_in_root =
-            (list->count < ct->lower_bound || list->count > ct->upper_bound);
+            (list->count < ct->lower_bound
+             || (!(ct->flags & APC_SEMI_CONSTRAINED)
+                 && list->count > ct->upper_bound));
         ASN_DEBUG("lb %ld ub %ld %s", ct->lower_bound, ct->upper_bound,
                   ct->flags & APC_EXTENSIBLE ? "ext" : "fix");
         if(ct->flags & APC_EXTENSIBLE) {
